@@ -53,7 +53,8 @@ Deviations == { "SweepKeepsEntries",        \* final sweep completes but does no
                 "DispatchKeepsEntry",       \* dispatch does not remove the entry it completes
                 "SeqReuse",                 \* sequence number not advanced under the lock
                 "LookupFailInline",
-                "RemoveAtFinish" }          \* the entry of a dispatched response stays in the table until its completion runs        \* an unknown method is answered by the decode worker itself, ahead of the handler queue
+                "RemoveAtFinish",
+                "EofRunsQueued" }           \* at the end of the connection the teardown starts the requests still queued, whatever is executing          \* the entry of a dispatched response stays in the table until its completion runs        \* an unknown method is answered by the decode worker itself, ahead of the handler queue
 
 ASSUME Dev \subseteq Deviations
 ASSUME Pings \subseteq Calls /\ CtxCalls \subseteq Calls \ Pings /\ FailCalls \subseteq Calls \ Pings /\ NoMethodCalls \subseteq FailCalls
@@ -529,7 +530,7 @@ LibraryStep ==     \* steps the library takes by itself (fairness applies to the
     \/ \E c \in Calls : CtxReturnDone(c)
     \/ SrvRecv \/ SrvEOF \/ SrvDrop
     \/ \E d1 \in DevChoice("PingRunsHandler") : \E d2 \in DevChoice("DupExec") : \E d3 \in DevChoice("LookupFailInline") : SrvDecode(d1, d2, d3)
-    \/ \E c \in Calls : \E d \in DevChoice("UnorderedExec") : SrvExecBegin(c, d) \/ SrvLookupFail(c, d)
+    \/ \E c \in Calls : \E d \in (DevChoice("UnorderedExec") \cup (IF "EofRunsQueued" \in Dev /\ seof THEN {TRUE} ELSE {})) : SrvExecBegin(c, d) \/ SrvLookupFail(c, d)
     \/ \E c \in Calls : \E d \in DevChoice("EchoWrongSeq") : SrvRespond(c, d)
 
 EnvStep ==         \* choices of the user, the handlers, the network and the peer
